@@ -10,6 +10,7 @@ CONSTANTS
   RspData = {}
   MaxReq = 0
   MaxDrain = 0
+  Deviations = {}
 INVARIANTS ExactlyOnceRouting OwnerIsAddressRangeOwner PayloadPreserved RspToOriginator
            DrainAckOnlyWhenEmpty NoForwardWhilePaused DrainedNoOwnTraffic AllDrainedQuiet
 CONSTRAINT Mark
